@@ -125,6 +125,7 @@ STD_MODELS = [
     (r'^std::shared_ptr<.*>$', 'struct vp_shared_ptr'),
     (r'^std::_Setw$', 'struct vp_setw'),
     (r'^std::type_info$', 'struct vp_typeinfo'),
+    (r'^std::_Mem_fn(_base)?<.*>$', 'struct vp_memfn'),
     (r'^std::allocator<.*>$', 'struct vp_empty'),
     (r'^std::_Setfill<char>$', 'struct vp_setfill'),
 ]
@@ -162,6 +163,19 @@ class Index:
                 if self.is_template_pattern(n): continue
                 for nm in self.rec_names(n):
                     self.rec_by_name.setdefault(nm, n)
+        # expanded parameter packs give several ParmVarDecls the same name: make them unique
+        for i, n in self.by_id.items():
+            if n.get('kind') in FUNC_KINDS:
+                ps = [c for c in n.get('inner', []) if isinstance(c, dict) and c.get('kind') == 'ParmVarDecl' and c.get('name')]
+                names = [c['name'] for c in ps]
+                for k, c in enumerate(ps):
+                    if names.count(c['name']) > 1: c['_vp_name'] = '%s_%d' % (c['name'], k)
+        self.lambda_by_pos = {}
+        for i, n in self.by_id.items():
+            if n.get('kind') == 'CXXRecordDecl' and n.get('definitionData', {}).get('isLambda') and n.get('completeDefinition'):
+                loc = n.get('loc', {})
+                loc = loc.get('expansionLoc', loc) if 'line' not in loc and 'col' not in loc else loc
+                self.lambda_by_pos.setdefault((loc.get('line'), loc.get('col')), []).append(n)
         self.enum_by_name = {}
         for i, n in self.by_id.items():
             if n.get('kind') == 'EnumDecl' and n.get('name'):
@@ -230,7 +244,7 @@ class Index:
                 defs = self.tmpl_defaults.get(nm, [])
                 while args and len(args) <= len(defs) and defs[len(args)-1] is not None and defs[len(args)-1] == args[-1]:
                     args.pop()
-            nm += '<' + ','.join(a for a in args) + '>'
+            nm += '<' + ','.join(a for a in args if a != '') + '>'
         return nm
 
     def qualname(self, n, drop_defaults=False):
@@ -258,6 +272,9 @@ class Index:
         for dd in (False, True):
             q = norm(self.qualname(rec, dd))
             names.add(q)
+            # clang's -ast-dump-filter drops the namespace parent of top-level matches: the driver's own helper
+            # types live in namespace vp_trompeloeil (normalised prefix 'vp_')
+            names.add('vp_' + q)
         if rec.get('kind') == 'CXXRecordDecl' and not rec.get('name'):
             # lambda closure / anonymous: name by source location
             names.add('anon_' + rec['id'])
